@@ -208,23 +208,33 @@ theorem countLoop_spec (bufsz : Nat) (hb : 1 ≤ bufsz) :
       rw [ih _ _ (by omega)]
       omega
 
-theorem copyLoop_spec (bufsz : Nat) (hb : 1 ≤ bufsz) :
+theorem copyLoopG_spec (bufsz : Nat) (hb : 1 ≤ bufsz) :
     ∀ (fuel : Nat) (s : Dec) (acc : Bytes), s.rest.length < fuel →
-      copyLoop bufsz fuel s acc = acc ++ s.rest := by
+      copyLoopG true bufsz fuel s acc = acc ++ s.rest := by
   intro fuel
   induction fuel with
   | zero => intro s acc h; omega
   | succ fuel ih =>
     intro s acc h
-    rw [copyLoop]
+    rw [copyLoopG]
     by_cases hr : s.rest = []
     · have : (s.read bufsz).1.length = 0 := by rw [read_fst, hr]; simp
       simp only [this, if_true, hr, List.append_nil]
     · have hp := read_len_pos s bufsz hb hr
       rw [if_neg (by omega)]
+      simp only [Bool.not_true, Bool.false_and, Bool.false_eq_true, if_false]
       have hlen : s.rest.length = (s.read bufsz).1.length + (s.read bufsz).2.rest.length := by
         rw [← List.length_append, read_append]
       rw [ih _ _ (by omega), List.append_assoc, read_append]
+
+/-- unfolds the generated `NTF_COPY_STOPS_ONLY_AT_EOF`: with a further exit in the loop this is not provable -/
+theorem copyLoop_spec (bufsz : Nat) (hb : 1 ≤ bufsz) :
+    ∀ (fuel : Nat) (s : Dec) (acc : Bytes), s.rest.length < fuel →
+      copyLoop bufsz fuel s acc = acc ++ s.rest := by
+  have h : NTF_COPY_STOPS_ONLY_AT_EOF = true := by decide
+  unfold copyLoop
+  rw [h]
+  exact copyLoopG_spec bufsz hb
 
 /-! ### maps -/
 
